@@ -2,6 +2,7 @@
 from ..core import *
 from .. import harness, gen, pyref, corr
 from ..curve import *
+from .. import surface
 
 VO = ['Props/C06.vo']
 FILES = ['Props/C06.v', 'Proofs/Constructors.v', 'Proofs/Reach.v', 'Proofs/Projective.v']
@@ -67,5 +68,8 @@ def search(ctx, scale, hints):
                 fails.append(('%s hands out %s (build %s)' % (l[:90], why or o, b), {'build': b, 'script': [l], 'output': [o]}, {'class': 'constructor', 'op': l.split()[0]}))
     return fails
 
+def always(ctx, scale):
+    return surface.c06_conversions(ctx, Pool('ark', ctx.rng.fork('surf'), n_rand=3), scale)
+
 def run_check(ctx):
-    run_property(ctx, 'Props.C06', VO, FILES, build_scripts, search, 'C06 (constructors yield valid elements) is no longer shown to hold')
+    run_property(ctx, 'Props.C06', VO, FILES, build_scripts, search, 'C06 (constructors yield valid elements) is no longer shown to hold', always=always)
